@@ -4,6 +4,7 @@ package flags
 
 import (
 	"strings"
+	"unicode/utf8"
 )
 
 // Windows uses a front slash for both short and long options.  Also it uses
@@ -81,7 +82,10 @@ func splitOption(prefix string, option string, islong bool) (string, string, *st
 		pos = strings.Index(option, sp)
 	}
 
-	if (islong && pos >= 0) || (!islong && pos == 1) {
+	// A short option name is one character, which may take several bytes
+	_, shortlen := utf8.DecodeRuneInString(option)
+
+	if (islong && pos >= 0) || (!islong && pos > 0 && pos == shortlen) {
 		rest := option[pos+1:]
 		return option[:pos], sp, &rest
 	}
